@@ -2,6 +2,363 @@
 #![allow(unused_imports)]
 use super::*;
 use crate::verif_common::*;
+use std::cmp::Ordering;
+use std::hash::{Hash, Hasher};
+
+trait Sym: Sized {
+    fn sym() -> Self;
+}
+macro_rules! sym_int {
+    ($($t:ty),*) => {$(impl Sym for $t { fn sym() -> Self { kani::any() } })*};
+}
+sym_int!(u64, i64, u128, i128, bool);
+impl Sym for f64 {
+    fn sym() -> f64 {
+        let f: f64 = kani::any();
+        kani::assume(!f.is_nan());
+        f
+    }
+}
+/// none
+struct NoneV;
+impl Sym for NoneV {
+    fn sym() -> Self {
+        NoneV
+    }
+}
+impl From<NoneV> for Value {
+    fn from(_: NoneV) -> Value {
+        Value::from(())
+    }
+}
+/// undefined
+struct UndefV;
+impl Sym for UndefV {
+    fn sym() -> Self {
+        UndefV
+    }
+}
+impl From<UndefV> for Value {
+    fn from(_: UndefV) -> Value {
+        Value::UNDEFINED
+    }
+}
+/// a small string of 0..=2 ASCII bytes
+struct Str2([u8; 2], usize);
+impl Sym for Str2 {
+    fn sym() -> Self {
+        let b: [u8; 2] = kani::any();
+        let n: usize = kani::any();
+        kani::assume(n <= 2 && b[0] < 0x80 && b[1] < 0x80);
+        Str2(b, n)
+    }
+}
+impl From<Str2> for Value {
+    fn from(s: Str2) -> Value {
+        Value::from(unsafe { core::str::from_utf8_unchecked(&s.0[..s.1]) })
+    }
+}
+
+/// An allocation-free iterator over the integers i..n (as I64 values) with an exact size hint.
+pub(crate) struct CountIter {
+    pub i: usize,
+    pub n: usize,
+}
+impl Iterator for CountIter {
+    type Item = Value;
+    fn next(&mut self) -> Option<Value> {
+        if self.i < self.n {
+            self.i += 1;
+            Some(Value::from((self.i - 1) as i64))
+        } else {
+            None
+        }
+    }
+    fn size_hint(&self) -> (usize, Option<usize>) {
+        (self.n - self.i, Some(self.n - self.i))
+    }
+}
+
+/// A ValueIter with an exact size hint over the integers 0..n (as I64 values).
+pub(crate) fn counting_iter(n: usize) -> ValueIter {
+    ValueIter { imp: ValueIterImpl::Dyn(Box::new(CountIter { i: 0, n })) }
+}
+
+/// The empty ValueIter (no dynamic dispatch at all).
+pub(crate) fn empty_iter() -> ValueIter {
+    ValueIter { imp: ValueIterImpl::Empty }
+}
+
+fn trace(v: &Value) -> TraceHasher {
+    let mut h = TraceHasher::new();
+    v.hash(&mut h);
+    h
+}
+
+/// Order/equality laws for one pair of values (NaN excluded by construction).
+fn check_pair(a: &Value, b: &Value, with_hash: bool) {
+    let ab = a.cmp(b);
+    let ba = b.cmp(a);
+    // antisymmetry / totality
+    assert!(ab == ba.reverse());
+    // the order agrees with equality
+    let eq = a == b;
+    assert!((ab == Ordering::Equal) == eq);
+    // equality is symmetric
+    assert!(eq == (b == a));
+    // reflexive
+    assert!(a.cmp(a) == Ordering::Equal);
+    if with_hash && eq {
+        assert!(trace(a).same(&trace(b)));
+    }
+}
+
+macro_rules! pair_harness {
+    ($name:ident, $ta:ty, $tb:ty, $hash:expr) => {
+        #[kani::proof]
+        #[kani::unwind(5)]
+        #[kani::stub(alloc::fmt::format, crate::verif_common::format_stub)]
+        fn $name() {
+            let (a, b) = (Value::from(<$ta as Sym>::sym()), Value::from(<$tb as Sym>::sym()));
+            check_pair(&a, &b, $hash);
+            kani::cover!(a == b);
+            kani::cover!(a < b);
+            core::mem::forget((a, b));
+        }
+    };
+}
+
+// @verif-block props=C07 tier=quick cap=400 group=core doc=Value_Ord/PartialEq(/Hash)_laws_for_one_pair_of_the_listed_kinds_with_fully_symbolic_payloads_(NaN_excluded):_cmp(a,b)==cmp(b,a).reverse(),_cmp==Equal_<=>_a==b,_==_symmetric,_cmp(a,a)==Equal,_and_(where_hash_is_listed_true)_a==b_=>_identical_Hasher_call_traces
+pair_harness!(c07_pair_i64_i64, i64, i64, true);
+pair_harness!(c07_pair_i64_u64, i64, u64, false);
+pair_harness!(c07_pair_u64_u64, u64, u64, false);
+pair_harness!(c07_pair_u64_f64, u64, f64, false);
+pair_harness!(c07_pair_i64_f64, i64, f64, false);
+pair_harness!(c07_pair_f64_f64, f64, f64, false);
+pair_harness!(c07_pair_i64_i128, i64, i128, false);
+pair_harness!(c07_pair_u128_u128, u128, u128, false);
+pair_harness!(c07_pair_u64_u128, u64, u128, false);
+pair_harness!(c07_pair_none_bool, NoneV, bool, true);
+pair_harness!(c07_pair_undef_none, UndefV, NoneV, true);
+pair_harness!(c07_pair_bool_bool, bool, bool, true);
+pair_harness!(c07_pair_none_i64, NoneV, i64, true);
+pair_harness!(c07_pair_str_str, Str2, Str2, true);
+pair_harness!(c07_pair_str_i64, Str2, i64, true);
+pair_harness!(c07_pair_i128_u128, i128, u128, false); // tier=thorough cap=3000
+pair_harness!(c07_pair_i128_f64, i128, f64, false); // tier=thorough cap=3000
+pair_harness!(c07_pair_u128_f64, u128, f64, false); // tier=thorough cap=3000
+pair_harness!(c07_pair_i128_i128, i128, i128, false); // tier=thorough cap=1200
+// @verif-end
+
+/// Known finding KF-C07-bool-number: a bool and a number compare equal through coercion
+/// (`true == 1`) while the order puts every bool before every number (`true < 1`).
+macro_rules! bool_num_harness {
+    ($name:ident, $t:ty, $only_equal_region:expr) => {
+        #[kani::proof]
+        #[kani::unwind(5)]
+        #[kani::stub(alloc::fmt::format, crate::verif_common::format_stub)]
+        fn $name() {
+            let x: bool = kani::any();
+            let y: $t = <$t as Sym>::sym();
+            // region of the known finding: the number equals the bool's numeric value
+            let in_region = y == (x as u8 as $t);
+            kani::assume(in_region == $only_equal_region);
+            let (a, b) = (Value::from(x), Value::from(y));
+            check_pair(&a, &b, false);
+            kani::cover!(true);
+            core::mem::forget((a, b));
+        }
+    };
+}
+
+// @verif-block props=C07 tier=quick cap=400 group=core doc=order/equality_laws_for_bool_x_number_pairs;_the_sub-region_"number_equals_the_bool's_numeric_value"_is_the_recorded_known_finding_and_is_split_off_into_the_*_known_*_twins
+bool_num_harness!(c07_pair_bool_i64, i64, false);
+bool_num_harness!(c07_pair_bool_u64, u64, false);
+bool_num_harness!(c07_pair_bool_f64, f64, false);
+bool_num_harness!(c07_pair_bool_i64_known_eq, i64, true); // known=KF-C07-bool-number
+// @verif-end
+
+// ------------------------------------------------------------ exact int/float comparison kernels
+
+/// Exact comparison of a finite f64 with an integer given as sign + u128 magnitude.
+fn ref_cmp_f64_int(f: f64, n: Z) -> Ordering {
+    let bits = f.to_bits();
+    let fneg = (bits >> 63) != 0;
+    let exp = ((bits >> 52) & 0x7ff) as i32;
+    let frac = bits & ((1u64 << 52) - 1);
+    let (m, e): (u64, i32) = if exp == 0 { (frac, -1074) } else { (frac | (1u64 << 52), exp - 1075) };
+    let n = n.norm();
+    if m == 0 {
+        return if n.mag == 0 {
+            Ordering::Equal
+        } else if n.neg {
+            Ordering::Greater
+        } else {
+            Ordering::Less
+        };
+    }
+    if n.mag == 0 {
+        return if fneg { Ordering::Less } else { Ordering::Greater };
+    }
+    if fneg != n.neg {
+        return if fneg { Ordering::Less } else { Ordering::Greater };
+    }
+    // same sign, both non-zero: compare magnitudes m * 2^e  vs  n.mag
+    let mag = if e >= 0 {
+        if e > 75 {
+            Ordering::Greater
+        } else {
+            ((m as u128) << (e as u32)).cmp(&n.mag)
+        }
+    } else {
+        let s = (-e) as u32;
+        if s >= 53 {
+            Ordering::Less
+        } else {
+            let floor = (m >> s) as u128;
+            let rem = m & ((1u64 << s) - 1);
+            match floor.cmp(&n.mag) {
+                Ordering::Equal => {
+                    if rem > 0 {
+                        Ordering::Greater
+                    } else {
+                        Ordering::Equal
+                    }
+                }
+                o => o,
+            }
+        }
+    };
+    if fneg {
+        mag.reverse()
+    } else {
+        mag
+    }
+}
+
+// @verif props=C07,C08 tier=quick cap=900 group=core fns=cmp_f64_i128
+/// cmp_f64_i128(f, n) equals the exact mathematical comparison for ALL finite f64 x ALL i128
+/// (reference: integer comparison of mantissa*2^exponent with the integer's magnitude).
+#[kani::proof]
+#[kani::unwind(3)]
+fn c08_cmp_f64_i128_exact() {
+    let f: f64 = kani::any();
+    kani::assume(f.is_finite());
+    let n: i128 = kani::any();
+    assert!(cmp_f64_i128(f, n) == ref_cmp_f64_int(f, Z::from_i128(n)));
+    kani::cover!(cmp_f64_i128(f, n) == Ordering::Equal && n > (1i128 << 100));
+    kani::cover!(n == i128::MAX);
+}
+
+// @verif props=C07,C08 tier=quick cap=900 group=core fns=cmp_f64_u128
+/// cmp_f64_u128(f, n) equals the exact mathematical comparison for ALL finite f64 x ALL u128.
+#[kani::proof]
+#[kani::unwind(3)]
+fn c08_cmp_f64_u128_exact() {
+    let f: f64 = kani::any();
+    kani::assume(f.is_finite());
+    let n: u128 = kani::any();
+    assert!(cmp_f64_u128(f, n) == ref_cmp_f64_int(f, Z::from_u128(n)));
+    kani::cover!(cmp_f64_u128(f, n) == Ordering::Equal && n > (1u128 << 127));
+    kani::cover!(n == u128::MAX);
+}
+
+// @verif props=C07,C08 tier=quick cap=300 group=core fns=cmp_i128_u128,f64_total_cmp
+/// cmp_i128_u128 is the exact comparison; infinities order outside every integer.
+#[kani::proof]
+#[kani::unwind(3)]
+fn c08_cmp_i128_u128_exact() {
+    let a: i128 = kani::any();
+    let b: u128 = kani::any();
+    let want = if a < 0 { Ordering::Less } else { (a as u128).cmp(&b) };
+    assert!(cmp_i128_u128(a, b) == want);
+    assert!(cmp_f64_i128(f64::INFINITY, a) == Ordering::Greater);
+    assert!(cmp_f64_i128(f64::NEG_INFINITY, a) == Ordering::Less);
+    assert!(cmp_f64_u128(f64::INFINITY, b) == Ordering::Greater);
+    assert!(cmp_f64_u128(f64::NEG_INFINITY, b) == Ordering::Less);
+    kani::cover!(a < 0);
+    kani::cover!(a > 0 && (a as u128) > b);
+}
+
+macro_rules! int_float_value_harness {
+    ($name:ident, $t:ty, $z:expr) => {
+        #[kani::proof]
+        #[kani::unwind(5)]
+        #[kani::stub(alloc::fmt::format, crate::verif_common::format_stub)]
+        fn $name() {
+            let x: $t = kani::any();
+            let f: f64 = kani::any();
+            kani::assume(f.is_finite());
+            let (a, b) = (Value::from(x), Value::from(f));
+            let want = ref_cmp_f64_int(f, $z(x)).reverse();
+            assert!(a.cmp(&b) == want);
+            assert!((a == b) == (want == Ordering::Equal));
+            kani::cover!(a == b && x != 0);
+            kani::cover!(want == Ordering::Less);
+            core::mem::forget((a, b));
+        }
+    };
+}
+fn z_i(x: i64) -> Z {
+    Z::from_i128(x as i128)
+}
+fn z_u(x: u64) -> Z {
+    Z::from_u128(x as u128)
+}
+
+// @verif-block props=C08,C07 tier=quick cap=900 group=core doc=comparison_between_integers_and_floats_is_exact_at_the_Value_level:_Value::cmp_and_==_of_an_integer_(full_64-bit_range)_with_a_finite_f64_(all_bit_patterns)_equal_the_exact_mathematical_comparison
+int_float_value_harness!(c08_value_cmp_i64_f64_exact, i64, z_i);
+int_float_value_harness!(c08_value_cmp_u64_f64_exact, u64, z_u);
+// @verif-end
+
+// ------------------------------------------------------------ C09 / C01 subscripts
+
+macro_rules! index_harness {
+    ($name:ident, $n:expr, $mk:expr) => {
+        #[kani::proof]
+        #[kani::unwind(8)]
+        #[kani::stub(alloc::fmt::format, crate::verif_common::format_stub)]
+        fn $name() {
+            let len: usize = kani::any();
+            kani::assume(len <= $n);
+            let idx: i64 = kani::any();
+            let buf: [u8; $n] = [b'a', b'b', b'c', b'd'];
+            let v: Value = $mk(&buf[..len]);
+            let key = Value::from(idx);
+            let got = v.get_item_opt(&key);
+            match py_index(len, idx as i128) {
+                Some(i) => {
+                    assert!(got.is_some());
+                    let g = got.as_ref().unwrap();
+                    // element i: a one-character string (str) or the byte value (bytes)
+                    let ok = match g.0 {
+                        ValueRepr::SmallStr(ref s) => s.as_str().as_bytes() == &buf[i..i + 1],
+                        ValueRepr::U64(b) => b == buf[i] as u64,
+                        ValueRepr::I64(b) => b == buf[i] as i64,
+                        _ => false,
+                    };
+                    assert!(ok);
+                }
+                None => assert!(got.is_none()),
+            }
+            kani::cover!(got.is_some() && idx < 0);
+            kani::cover!(got.is_none() && idx < 0);
+            kani::cover!(len > 0 && idx == -(len as i64));
+            core::mem::forget((got, v, key));
+        }
+    };
+}
+fn mk_str(b: &[u8]) -> Value {
+    Value::from(unsafe { core::str::from_utf8_unchecked(b) })
+}
+fn mk_bytes(b: &[u8]) -> Value {
+    Value::from_bytes(b.to_vec())
+}
+
+// @verif-block props=C09,C01 tier=quick cap=900 group=core doc=subscript_v[i]_on_a_string_/_byte_string_of_length_0..=4_with_ANY_i64_index:_Python's_rule_(element_i_mod_len_for_-len<=i<len,_undefined_otherwise),_never_a_panic
+index_harness!(c09_index_str, 4, mk_str);
+index_harness!(c09_index_bytes, 4, mk_bytes);
+// @verif-end
 
 #[cfg(test)]
 mod playback {
